@@ -152,10 +152,12 @@ def build_harness(name, extra=None):
     outd = os.path.join(B, "harness")
     os.makedirs(outd, exist_ok=True)
     out = os.path.join(outd, name)
+    flagtxt = " ".join(extra or [])
     with Lock("harness_" + name):
         stale = (not os.path.exists(out) or os.path.getmtime(out) < os.path.getmtime(src)
                  or os.path.getmtime(out) < _newest_header_mtime()
-                 or os.path.getmtime(out) < os.path.getmtime(os.path.join(ROOT, "harness", "drv.hpp")))
+                 or os.path.getmtime(out) < os.path.getmtime(os.path.join(ROOT, "harness", "drv.hpp"))
+                 or not os.path.exists(out + ".flags") or open(out + ".flags").read() != flagtxt)
         if stale:
             cmd = ["g++", "-std=gnu++17", "-O1", "-g", "-D" + GUARD, "-w", "-I" + REPO, "-I" + REPO + "/include",
                    "-I" + REPO + "/src", "-I" + SG + "/include", "-I" + SG, "-I" + os.path.join(ROOT, "harness"),
@@ -165,6 +167,7 @@ def build_harness(name, extra=None):
             if rc != 0:
                 raise BuildError("harness %s does not compile against the current tree:\n%s" % (name, o[-6000:]))
             os.replace(out + ".tmp", out)
+            open(out + ".flags", "w").write(flagtxt)
     return out
 
 
